@@ -9,17 +9,12 @@ def wordsB : List Bytes := Gen.words.map (fun w => w.map UInt8.ofNat)
 
 def space : UInt8 := 32
 
-/-- 12-bit groups of a byte string, as `binToMnemonic` forms them: for nibble = 0, 3, 6, …;
-`p = nibble/2`; even nibble: `(b[p] << 4) + (b[p+1] >> 4)`; odd nibble: `((b[p] & 0xf) << 8) + b[p+1]`
-(a missing `b[p+1]` reads as 0). -/
-def groupAt (input : Bytes) (nibble : Nat) : Nat :=
-  let p := nibble / 2
-  let b1 := (input.getD p 0).toNat
-  let b2 := if p + 1 < input.length then (input.getD (p+1) 0).toNat else 0
-  if nibble % 2 = 0 then (b1 <<< 4) + (b2 >>> 4) else ((b1 % 16) <<< 8) + b2
-
-def groups (input : Bytes) : List Nat :=
-  (List.range ((input.length * 2 + 2) / 3)).map (fun j => groupAt input (3 * j))
+/-- 12-bit groups of a byte string whose length is a multiple of 3: each 3 bytes `a b c` give
+`(a << 4) + (b >> 4)` and `((b & 0xf) << 8) + c` — what the nibble-indexed loop of `binToMnemonic`
+computes (nibble = 0, 3, 6, …; `p = nibble/2`; even/odd nibble cases). Other lengths are refused before. -/
+def groups : Bytes → List Nat
+  | a :: b :: c :: rest => ((a.toNat <<< 4) + (b.toNat >>> 4)) :: (((b.toNat % 16) <<< 8) + c.toNat) :: groups rest
+  | _ => []
 
 def joinWords : List Bytes → Bytes
   | [] => []
@@ -60,24 +55,32 @@ def drain (cap : Nat) : Nat → DecSt → Outcome DecSt
       else .fault "result[resultIndex]"
     else .ok s
 
+/-- body of the `for _, w := range mnemonicWords` loop -/
+def decWord (cap : Nat) (acc : Outcome DecSt) (w : Bytes) : Outcome DecSt :=
+  match acc with
+  | .ok s =>
+    match lookup w with
+    | none => .refuse "mnemonic-word"
+    | some v => drain cap 4 { s with buffering := s.buffering + 3, current := (s.current <<< 12) + v }
+  | e => e
+
+/-- the final `if buffering > 0 { result[resultIndex] = uint8(current & 0xFF) }` and `return result` -/
+def decFlush (cap : Nat) (s : DecSt) : Outcome Bytes :=
+  if s.buffering > 0 then
+    if s.out.length < cap then
+      .ok (s.out ++ [UInt8.ofNat (s.current % 256)] ++ zeros (cap - s.out.length - 1))
+    else .fault "result[resultIndex]"
+  else .ok (s.out ++ zeros (cap - s.out.length))
+
 /-- `mnemonicToBin` -/
 def mnemonicToBin (m : Bytes) : Outcome Bytes :=
   let ws := splitOnSpace m
   if ws.length % 2 ≠ 0 then .refuse "mnemonic-odd" else
   let cap := ws.length * 15 / 10
-  let r := ws.foldl (fun (acc : Outcome DecSt) w => do
-      let s ← acc
-      match lookup w with
-      | none => .refuse "mnemonic-word"
-      | some v => drain cap 4 { s with buffering := s.buffering + 3, current := (s.current <<< 12) + v })
-    (.ok {})
-  do
-    let s ← r
-    if s.buffering > 0 then
-      if s.out.length < cap then
-        pure (s.out ++ [UInt8.ofNat (s.current % 256)] ++ zeros (cap - s.out.length - 1))
-      else .fault "result[resultIndex]"
-    else pure (s.out ++ zeros (cap - s.out.length))
+  match ws.foldl (decWord cap) (.ok {}) with
+  | .ok s => decFlush cap s
+  | .refuse c => .refuse c
+  | .fault w => .fault w
 
 def mnemonicToSized (size : Nat) (m : Bytes) : Outcome Bytes := do
   let o ← mnemonicToBin m
